@@ -495,3 +495,43 @@ Qed.
 (* the bare "m" / "M" (the key itself in the standard notation) is refused, never mapped to another key *)
 Lemma bare_m_refused : parse_path [ch_m] = Err /\ parse_path [ch_M] = Err.
 Proof. split; reflexivity. Qed.
+
+(* ------------------------------------------------------------------ *)
+(* derivation along a path = the specification's descent, for every path in the standard notation *)
+From BSV Require Import Proofs.Bip32Proofs.
+Local Open Scope Z_scope.
+
+(* the IL <> 0 side condition of ckd_priv_eq_spec at every step of the descent *)
+Fixpoint il_nonzero_along (E : ec_ops) (x : sxprv) (idx : list N) : Prop :=
+  match idx with
+  | [] => True
+  | i :: r =>
+      parse256 (firstn 32 (I_priv E (sk x) (sc x) i)) <> 0 /\
+      match child_priv E x i with Some y => il_nonzero_along E y r | None => True end
+  end.
+
+Lemma child_priv_depth E x i y : child_priv E x i = Some y -> (sdepth y <= 255)%N.
+Proof.
+  unfold child_priv. destruct (CKDpriv E (sk x) (sc x) i) as [[ki ci]|]; [|discriminate].
+  destruct (N.leb_spec 255 (sdepth x)) as [|Hlt]; [discriminate|].
+  intros Hy. inversion Hy; subst y. cbn [sdepth]. lia.
+Qed.
+
+Lemma derive_all_eq_spec E idx : forall x,
+  (sdepth x <= 255)%N -> il_nonzero_along E x idx ->
+  derive_all (xprv_derive E) (model_of_spec E x) idx = of_option (option_map (model_of_spec E) (descend_priv E x idx)).
+Proof.
+  induction idx as [|i r IH]; intros x Hd Hil; cbn [derive_all descend_priv]; [reflexivity|].
+  destruct Hil as [Hil Hrest]. rewrite (ckd_priv_eq_spec E x i Hd Hil).
+  destruct (child_priv E x i) as [y|] eqn:Ey; cbn [option_map of_option bind]; [|reflexivity].
+  apply IH; [eapply child_priv_depth; exact Ey | exact Hrest].
+Qed.
+
+Theorem derive_path_eq_spec E x p idx :
+  std_path p = Some idx -> idx <> [] ->
+  (sdepth x <= 255)%N -> il_nonzero_along E x idx ->
+  xprv_derive_path E (model_of_spec E x) p = of_option (option_map (model_of_spec E) (descend_priv E x idx)).
+Proof.
+  intros Hp Hne Hd Hil. unfold xprv_derive_path. rewrite (std_paths_ok p idx Hp Hne). cbn [bind].
+  apply derive_all_eq_spec; assumption.
+Qed.
